@@ -44,9 +44,35 @@ func sizeofType(t types.Type) int64 {
 
 // boundsObligations checks all index/slice operations of fn. keyOf names the
 // function in obligation keys.
+// boundsTable maps "function/kind" prefixes of obligation keys to a one-line reason for
+// which the obligation is accepted without entailment (library contract or recovered).
+type boundsTable map[string]string
+
 func boundsObligations(r *Report, m *Module, rule string, fn *ssa.Function, skip func(ssa.Instruction) (bool, string)) int {
+	return boundsObligationsT(r, m, rule, fn, nil)
+}
+
+func boundsObligationsT(r *Report, m *Module, rule string, fn *ssa.Function, table boundsTable) int {
+	var skip func(ssa.Instruction) (bool, string)
 	n := 0
 	fkey := fname(fn)
+	inner := r
+	r = &Report{}
+	defer func() {
+		for _, o := range r.Obls {
+			if !o.OK {
+				for prefix, reason := range table {
+					if strings.HasPrefix(o.Key, rule+"/"+prefix) {
+						o.OK = true
+						o.Detail = "tabled: " + reason + " [" + o.Detail + "]"
+						break
+					}
+				}
+			}
+			o.Config = inner.curConfig
+			inner.Obls = append(inner.Obls, o)
+		}
+	}()
 	for _, b := range fn.Blocks {
 		for _, in := range b.Instrs {
 			switch x := in.(type) {
